@@ -375,6 +375,20 @@ func genE1(r *Run, prop string) (*e1World, *e1Config) {
 			r.Harness("setup join: %v", err)
 		}
 	}
+	if cfg.shared && r.Choose("derived-log", 3) == 0 {
+		// a log built from the shared log's entries and heads, used next to it (appended to, merged from)
+		o := &ipfslog.LogOptions{ID: "L", AccessController: e1Controller{}, Entries: w.logs[0].GetEntries(), Heads: w.logs[0].Heads().Slice()}
+		if w.byHash {
+			o.SortFn = sortByHash
+		}
+		fork, err := ipfslog.NewLog(w.st, ws[0].ID, o)
+		if err != nil {
+			r.Harness("NewLog: %v", err)
+		}
+		w.logs = append(w.logs, fork)
+		w.names = append(w.names, "forkOfA")
+		cfg.nlogs++
+	}
 	for _, l := range w.logs {
 		w.init = append(w.init, hashSet(l.GetEntries()))
 	}
